@@ -6,6 +6,25 @@ ALL = [f'C{i:02d}' for i in range(1, 21)]
 BASELINE = json.load(open('/root/.vp/BASELINE.json'))['cmd'] if os.path.exists('/root/.vp/BASELINE.json') else ''
 
 CLAIMED = {
+    'C01': dict(ref='§4 C01', text='Lean theorem C01_total_wellformed over the dispatcher model: for every configuration with id-preserving middlewares, every load result '
+                'other than RecursionError and every context, dispatch returns nothing or a reply whose document satisfies the declarative JSON-RPC 2.0 response predicate '
+                '(object or NON-EMPTY array) with codes = docCodes(doc); never raises. Tied to both real dispatchers by the dispatch correspondence suite '
+                '(product alphabets of request members, batches, malformed texts, digit-limit literals, nesting to 64).',
+                note='Kernel + standard axioms; hand-written model of dispatcher.py/v20.py tied by correspondence; json.loads classification (decode error / other ValueError / value) '
+                'is an input of the model; methods return JSON values; RecursionError (nesting far beyond 64) excluded by hypothesis.'),
+    'C02': dict(ref='§4 C02', text='Lean theorems: call answered once with the identical id (ReqId keeps JSON type), notification silent on every path, '
+                'C02_batch_is_map (accepted batch = collectReplies of single dispatches, logs concatenated), rejected batch executes nothing, exactly-once executions. '
+                'Tied by the dispatch suite incl. element-wise re-dispatch on the real dispatchers.',
+                note='Kernel + standard axioms; id-preserving middleware premise (explicit, decidable, shown necessary by C01_illbehaved_counterexample); hand-written model tied by correspondence.'),
+    'C03': dict(ref='§4 C03', text='Lean theorems: -32700 / -32600 (id null, nothing runs) / -32601 / -32602 without execution / protocol errors verbatim for every code, message, data (absent vs null) / '
+                'other exceptions → {-32000, "Server error"} independent of the exception; error codes tied to the source by the constants translator. '
+                'Correspondence over codes x messages x data shapes x exception types, as call / notification / batch element.',
+                note='Kernel + standard axioms; statements are for the library without user error handlers on the code in question (handlers are C12); '
+                'the loader accepting NaN/Infinity (D20) is a recorded finding decided by the oracle.'),
+    'C12': dict(ref='§4 C12', text='Lean theorems: chain order for n pass-through middlewares (enter 0..n-1, inner, leave n-1..0), short circuit at position k, chain result is what is sent, '
+                'per-element logs concatenate, handler fold (generic then per original code, each once), handlers never on success or rejected documents. '
+                'Correspondence over stacks of 0..3 middlewares of six kinds x handler tables x request kinds on both dispatchers.',
+                note='Kernel + standard axioms; middlewares / handlers are interpreted from finite kinds compiled to real Python callables by the harness.'),
     'C05': dict(ref='§4 C05', text='Lean theorems over the message model: from_json∘to_json = id up to falsy-params normalisation for requests, '
                 'responses, errors, batches and batch-level errors; to_json fixpoint; exact wire form; class-by-code. Tied to the code by the '
                 'msg correspondence suite (real constructors / to_json / JSON text through both encoders / from_json vs the model) and the constants translator.',
